@@ -178,7 +178,11 @@ def build_chart(spec: Spec, cfg: Cfg, dag: Any = None) -> Any:
 
         import dataclasses
 
-        has_task_set = any(f.name == "_coro_tasks" for f in dataclasses.fields(DAGRunConcurrentManager))
+        # the ordered stand-in replaces the registry only where the code's own registry is a plain ``set``; any other
+        # container the tree declares (a WeakSet, a list, ...) is part of the behaviour under test and is left alone --
+        # tasks hash by creation number on the virtual loop, so that is deterministic as well
+        has_task_set = any(f.name == "_coro_tasks" and f.default_factory is set
+                           for f in dataclasses.fields(DAGRunConcurrentManager))
 
         def manager_factory(dag: Any, ctx: Any) -> Any:
             if has_task_set:
@@ -281,7 +285,7 @@ def run_engine(spec: Spec, beh: Behaviour, cfg: Optional[Cfg] = None, chart: Any
             e = t.exception()
             if e is not None and is_control_flow(e):
                 cf_guard.note(e)
-    n_tasks = len(loop.tasks)
+    n_tasks = loop.n_created
     n_err = len(loop.errors)
     its = loop.iterations
     rc.frozen = True
